@@ -330,9 +330,11 @@ theorem faultExc_not_internal : ¬ Internal faultExc := by
   intro h
   rcases h with h | h | ⟨a, b, h⟩ <;> cases h
 
-/-- **`transition_to` of a live process keeps `K`**, and it is the caller that learns about an exception only in the `Bad` case -/
-theorem transitionToF_K (hN : NK a0 N) (x : FCfg) (s : SObj) (hk : K a0 x) (hac : afterClose a0 = false)
-    (hl : terminal x.l.c.st.label = false) : K a0 (transitionToF N x s).1 := by
+/-- **`transition_to` of a live process keeps `K`**, and nothing propagates to its caller except in the `Bad` case (an error of
+the state machine itself, in whose failing transition the fault fired) -/
+theorem transitionToF_K' (hN : NK a0 N) (x : FCfg) (s : SObj) (hk : K a0 x) (hac : afterClose a0 = false)
+    (hl : terminal x.l.c.st.label = false) :
+    K a0 (transitionToF N x s).1 ∧ ((transitionToF N x s).2 = none ∨ Bad a0 (transitionToF N x s).1) := by
   have hlive : LiveW x.l.c := by
     rcases hk.g with ⟨_, _, e, _, hs⟩ | ⟨hi, _⟩
     · rw [hs, excepted_terminal] at hl; cases hl
@@ -359,7 +361,7 @@ theorem transitionToF_K (hN : NK a0 N) (x : FCfg) (s : SObj) (hk : K a0 x) (hac 
     obtain ⟨y, ye⟩ := r
     simp only at p1 p2 p3 p4
     subst p1
-    refine ⟨p3.updL _, rfl, Or.inr ⟨p2, fun hm hf => ?_⟩⟩
+    refine ⟨⟨p3.updL _, rfl, Or.inr ⟨p2, fun hm hf => ?_⟩⟩, Or.inl rfl⟩
     have : y.fired = false := by rw [p4 hm, hf0]; exact hnf hm
     have hf' : y.fired = true := hf
     rw [this] at hf'; cases hf'
@@ -370,23 +372,27 @@ theorem transitionToF_K (hN : NK a0 N) (x : FCfg) (s : SObj) (hk : K a0 x) (hac 
     simp only
     have hya : ArmOk a0 y := by
       rcases p4 with ⟨_, q2, q3, _⟩ | ⟨_, q2, _⟩
-      · exact ⟨fun b hb => (by rw [q3] at hb; cases hb), fun _ => q3⟩
+      · exact ArmOk.of_none q3
       · exact q2
     obtain ⟨f1, f2, f3⟩ := forceExceptedF_spec hN y e hya hac p2 p3
-    refine ⟨f2.updL _, rfl, ?_⟩
     rcases p4 with ⟨q1, q2, q3, q4⟩ | ⟨q1, q2, q3⟩
     · -- the fault fired in this transition: EXCEPTED with it
       subst q1
       rcases f3 with ⟨g1, g2, g3⟩ | ⟨_, _, _, g4⟩
-      · exact Or.inr ⟨g2, fun _ _ => f1⟩
+      · exact ⟨⟨f2.updL _, rfl, Or.inr ⟨g2, fun _ _ => f1⟩⟩, Or.inl g1⟩
       · rw [q2] at g4; cases g4
     · -- an error of the state machine itself
       rcases f3 with ⟨g1, g2, g3⟩ | ⟨g1, g2, g3, g4⟩
-      · refine Or.inr ⟨g2, fun hm hf => ?_⟩
+      · refine ⟨⟨f2.updL _, rfl, Or.inr ⟨g2, fun hm hf => ?_⟩⟩, Or.inl g1⟩
         have : (forceExceptedF N y e).1.fired = false := by rw [g3 hm, q3 hm, hf0]; exact hnf hm
         have hf' : (forceExceptedF N y e).1.fired = true := hf
         rw [this] at hf'; cases hf'
-      · exact Or.inl ⟨g3, g2, e, q1, f1⟩
+      · have hb : Bad a0 ((forceExceptedF N y e).1.updL fun l => { l with trans := none }) := ⟨g3, g2, e, q1, f1⟩
+        exact ⟨⟨f2.updL _, rfl, Or.inl hb⟩, Or.inr hb⟩
+
+theorem transitionToF_K (hN : NK a0 N) (x : FCfg) (s : SObj) (hk : K a0 x) (hac : afterClose a0 = false)
+    (hl : terminal x.l.c.st.label = false) : K a0 (transitionToF N x s).1 :=
+  (transitionToF_K' hN x s hk hac hl).1
 
 end
 end FP
